@@ -4,6 +4,34 @@ import json, os
 V = os.path.dirname(os.path.dirname(os.path.abspath(__file__)))
 
 CHECKS = {
+ "C13": ("exploration", "5/C13",
+         "Seeded trees with links to files, to directories (inside/outside the source), chains up to 38, absolute/relative, dangling and cyclic; copied with -L by both drivers; oracle: the destination equals the tree obtained by resolving every source path with stat() and contains no symbolic link; dangling/cyclic links imply non-zero exit.",
+         "Links to ancestor directories (infinite expansion) are not generated.", "runtime monitoring: snapshot oracle against a stat()-resolved model"),
+ "C14": ("exploration", "5/C14",
+         "Seeded FIFOs, sockets, character devices (device numbers incl. 20-bit minors) and block devices (negative) x modes x umasks x placements x prior entries x drivers x filesystems, every run traced; oracle: lstat of destination nodes (S_IFMT, st_rdev, mode == source & ~umask), replacement of existing entries, block devices imply non-zero exit; trace monitor: no open() of a special source.",
+         "Needs root with CAP_MKNOD (present).", "runtime monitoring: lstat oracle + system-call trace monitor"),
+ "C15": ("fault_enumeration", "5/C15",
+         "Every answer class to the FICLONE ioctl (real kernel, each unsupported errno, hard EIO, supervisor-emulated success for all or some files) x {never, always, auto} x drivers; per-destination-inode monitor over the system-call trace checks who cloned, who copied data and in which order, against the exit status and the bytes.",
+         "No reflink filesystem exists here: the success path is an emulation (ioctl suppressed, supervisor copies through /proc/<tid>/fd, returns 0).",
+         "runtime monitoring: ioctl answer enumeration + per-inode trace monitor"),
+ "C16": ("exploration", "5/C16",
+         "Seeded invocations of every rejection class x offending-argument position x destination state x drivers; oracle: non-zero exit, byte-for-byte identical whole-sandbox snapshot (incl. directory mtimes), and no successful mutating system call on a sandbox object in the trace.",
+         "A --glob pattern that matches nothing is not claimed as a rejection class.", "runtime monitoring: before/after snapshot equality + trace monitor"),
+ "C17": ("exploration", "5/C17",
+         "Seeded trees x .gitignore files from the property's pattern grammar; the oracle is git itself (check-ignore --no-index with a detached empty git-dir and no user/system config): the set of destination paths must equal the set git does not ignore; without the option nothing may be filtered.",
+         "git 2.39 is the reference implementation of the pattern semantics; only grammar forms named in the property are generated.",
+         "runtime monitoring: differential oracle against git check-ignore"),
+ "C18": ("exploration", "5/C18",
+         "Multi-block trees copied with --fsync under supervisor schedules (lifo, pct, role priorities, jitter), also with emulated clones and short copies; offline monitor per destination inode: a successful fsync must be entered after every data-modifying call on that inode has returned, for every regular file copied.",
+         "Interleavings are sampled; ordering is judged on the supervisor's total order of enter/exit stops.",
+         "runtime monitoring: offline ordering checker over the system-call trace"),
+ "C19": ("exploration", "5/C19",
+         "probe_fs maps seeded files through the public libfs API on ext4 and tmpfs; the harness reads the files back and requires every byte outside the reported ranges (extents, merged extents, successive segments) to be zero and ranges ordered/disjoint. merge_extents is additionally checked exhaustively over all sorted extent lists in a bounded offset universe (U=14 quick, 18 thorough) and on random u64 lists. Auxiliary: valgrind memcheck on the >32-extent FIEMAP path, Miri on the merge unit test (thorough).",
+         "Exhaustive only for the merge sub-space within U; file layouts are sampled. memcheck/Miri only vouch for the executions they ran.",
+         "runtime monitoring: API probe + read-back oracle; exhaustive enumeration for merge_extents; memcheck/Miri auxiliary"),
+ "C20": ("exploration", "5/C20",
+         "Trees of 1000..16000 files under RLIMIT_NOFILE=1024 with the supervisor keeping walker/dispatcher ahead of the workers; the supervisor's shadow descriptor table (cross-checked with /proc/<pid>/fd) gives the peak of simultaneously open descriptors; oracle: exit 0, no EMFILE/ENFILE, peak independent of the number of files at fixed driver/workers/schedule.",
+         "No particular constant is demanded; slack 16 descriptors.", "runtime monitoring: descriptor-table monitor under a resource limit and adversarial scheduling"),
  "C10": ("exploration", "5/C10",
          "Seeded executions over modes (all special-bit combinations x sampled rwx), nanosecond mtimes, user xattrs, uid/gid pairs (root: fchown really works), flag combinations, umasks, fresh/overwritten destinations, both drivers and filesystems; multi-block files under lifo/pct/role schedules. Oracle: lstat+xattr comparison of every destination file with its source as the flags demand, plus the metadata-after-last-byte trace monitor.",
          "Directory/symlink metadata and atime are outside the statement. With --no-perms and --ownership the kernel's clearing of set-ID bits of a previous mode is accepted.",
